@@ -126,14 +126,16 @@ impl Prop for C16 {
             max_members: 4,
             ..GenCfg::default()
         };
+        // rarely: the document sits at the end of a single line longer than 65535 bytes
+        let huge = s.chance(1, 300);
         let lc = LayoutCfg {
             newline_heavy: s.chance(1, 2),
+            comments: !huge, // joining the lines below must not let a line comment swallow the rest
+            doc_comments: !huge,
             ..LayoutCfg::default()
         };
         let d = doccase::gen_doc(&mut s, &cfg, &lc)?;
         st.eval();
-        // rarely: the document sits at the end of a single line longer than 65535 bytes
-        let huge = s.chance(1, 400);
         let huge_text;
         let text = if huge {
             st.class("huge-line");
